@@ -1,7 +1,9 @@
 """Spec of the leaf arithmetic (C01): the value an identifiable expression denotes in a machine
 state, in the pyvc subset.
 
-id_val(e, st): integers and floats denote themselves (machine integers / doubles), a tensor reference
+id_val(e, st): a literal - integer or float - denotes that real number as a double (tensor values are
+doubles: an integer literal is NOT a 32-bit machine integer, which would wrap large literals and
+evaluate literal-only subexpressions in int32 - defect F16, fixed), a tensor reference
 denotes the value cell  <name>_vals[p]  where p is 0 for an order-0 tensor and otherwise the value of the
 position variable of its last level, p_<id>_<order-1>; Add and Multiply are the machine operations
 with the promotion table of the back ends, both operands always evaluated.  The variable naming is
@@ -33,7 +35,7 @@ def cell(t: ie.Tensor, st) -> S.Val:
 def id_val(e: ie.Expression, st) -> S.Val:
     match e:
         case ie.Integer():
-            return S.mk_int(e.value)
+            return S.VF(float(e.value))
         case ie.Float():
             return S.VF(e.value)
         case ie.Tensor():
